@@ -19,6 +19,7 @@ import (
 	"bytes"
 	"fmt"
 	"io"
+	"net"
 	"os"
 	"os/exec"
 	"path/filepath"
@@ -554,6 +555,14 @@ func runRouterCase(line string) (out string) {
 			uci = append(uci, kvs{k[2:], vs})
 		case strings.HasPrefix(k, "N:"):
 			nv = append(nv, kvs{string(unhx(k[2:])), []string{string(unhx(v))}})
+		case strings.HasPrefix(k, "B:"):
+			// loopback port held (TCP and UDP) for the duration of the case
+			if l, err := net.Listen("tcp", "127.0.0.1:"+k[2:]); err == nil {
+				defer l.Close()
+			}
+			if u, err := net.ListenPacket("udp", "127.0.0.1:"+k[2:]); err == nil {
+				defer u.Close()
+			}
 		default:
 			return "bad-case"
 		}
@@ -1154,6 +1163,13 @@ func genRouterCase(r *Rng, c *Ctx) string {
 	}
 	if r.Chance(30) {
 		b.file("/etc/unrelated.conf", genToken(r)+"\n")
+	}
+	if r.Chance(8) {
+		// the port the integration makes the proxy listen on is taken while the router is configured
+		// (an instance still exiting after an unclean stop, another local resolver): whatever the
+		// integration does about it, dnsmasq must forward to what it put into c.Listens
+		b.toks = append(b.toks, "B:5342=31")
+		c.Stat("listen-port-busy")
 	}
 	line := fmt.Sprintf("router %s %s %d %s %d %s", fw, ops, rep, hxs(cs), on, hxs("localhost:53"))
 	if len(b.toks) > 0 {
